@@ -60,6 +60,20 @@ Theorem C01_transfer_delivers : forall c plans, valid c ->
 Proof. exact case_delivers. Qed.
 Print Assumptions C01_transfer_delivers.
 
+(* the same with noise ALSO inside the lost rounds (duplicate / stale / future ACKs and foreign
+   datagrams arriving while the packet or its ACK is lost, at any offsets within the round): they
+   are consumed without moving the deadline, the round still times out, the packet is resent, and
+   the transfer completes as above.  [gcoop_script], [gplan_ok]: Tftp/Delivery.v *)
+Theorem C01_transfer_delivers_noisy_rounds : forall c plans, valid c ->
+  length plans = length (fst (expected c)) ->
+  Forall (gplan_ok (tmo (t_cfg c)) (t_retries c)) (combine (fst (expected c)) plans) ->
+  t_events c = gcoop_script c plans ->
+  ending_of c = inr (if snd (expected c) then EOverflow else EDone) /\
+  new_sends (run_transfer_case c) = fst (expected c) /\
+  (snd (expected c) = false -> delivered (run_transfer_case c) = wire_content c).
+Proof. exact case_delivers_g. Qed.
+Print Assumptions C01_transfer_delivers_noisy_rounds.
+
 (* the overflow ending: exactly when wrapping is disabled and there are more than 65535 blocks *)
 Theorem C01_overflow_iff : forall c, wrap_ok c ->
   snd (expected c) = match t_wrap c with
@@ -160,6 +174,31 @@ Proof.
   - repeat split; vm_compute; reflexivity.
 Qed.
 
+(* noise inside lost rounds: the OACK is lost once while a foreign datagram and a stray ACK 7
+   arrive; DATA 2 is lost once while a duplicate ACK 1 arrives late in the round *)
+Definition ex_gplans : list gplan :=
+  [ {| g_rounds := [[(NForeign 7%N [1]%N, 10); (NAck 7%N, 2047)]]; g_noises := []; g_delta := 1 |};
+    {| g_rounds := []; g_noises := [(NAck 0%N, 0)]; g_delta := 3 |};
+    {| g_rounds := [[(NAck 1%N, 2000)]]; g_noises := [(NAck 1%N, 0)]; g_delta := 100 |};
+    {| g_rounds := []; g_noises := []; g_delta := 0 |} ].
+Definition ex_gcoop : tcase :=
+  {| t_content := t_content ex_base; t_chunks := t_chunks ex_base; t_netascii := false;
+     t_options := t_options ex_base; t_limits := t_limits ex_base; t_retries := 1; t_wrap := Some 0%N;
+     t_kind := KNoFileno; t_events := gcoop_script ex_base ex_gplans;
+     t_v := current; t_nv := ncurrent; t_na_always_skip := false |}.
+Example C01_delivery_noisy_rounds_nonvacuous :
+  valid ex_gcoop /\ length ex_gplans = length (fst (expected ex_gcoop)) /\
+  Forall (gplan_ok (tmo (t_cfg ex_gcoop)) (t_retries ex_gcoop)) (combine (fst (expected ex_gcoop)) ex_gplans) /\
+  t_events ex_gcoop = gcoop_script ex_gcoop ex_gplans /\
+  ending_of ex_gcoop = inr EDone /\
+  delivered (run_transfer_case ex_gcoop) = t_content ex_gcoop /\
+  List.length (client_sends (run_transfer_case ex_gcoop)) = 6%nat.
+Proof.
+  split; [repeat split; cbn; lia|]. split; [vm_compute; reflexivity|]. split.
+  - vm_compute combine. repeat constructor; cbn; try lia; try discriminate.
+  - repeat split; vm_compute; reflexivity.
+Qed.
+
 (* only foreign senders talk before (1 + 1) x 2048: two sends of the OACK, at 0 and 2048 *)
 Definition ex_silent (evs : list event) : tcase :=
   {| t_content := t_content ex_base; t_chunks := []; t_netascii := false;
@@ -175,4 +214,21 @@ Proof.
   cbv zeta. split; [repeat split; cbn; lia|]. split.
   - repeat constructor; cbn; intros; try discriminate; lia.
   - split; vm_compute; reflexivity.
+Qed.
+
+(* the behaviour before the repair of D1 (retry exhaustion fell through) violates these readings:
+   after the last time-out of the OACK a DIFFERENT packet (DATA 1) is sent although nothing was
+   acknowledged, and the transfer does not end after max_retries + 1 sends *)
+Definition d1_silent : tcase :=
+  {| t_content := [1; 2; 3]%N; t_chunks := []; t_netascii := false; t_options := [(lit "blksize", lit "8")];
+     t_limits := {| max_bs := 65464; max_tmo := 30; default_tmo := 2 |}; t_retries := 1; t_wrap := Some 0%N;
+     t_kind := KNoFileno; t_events := [];
+     t_v := {| retry_fallthrough := true; errcode_raises := false |}; t_nv := ncurrent; t_na_always_skip := false |}.
+Theorem C02_refuted_D1_declarative :
+  ~ retransmissions_identical (run_transfer_case d1_silent) /\
+  List.length (client_sends (run_transfer_case d1_silent)) = 4%nat /\
+  quiet_before (Z.of_nat (S (t_retries d1_silent)) * tmo (t_cfg d1_silent)) (t_events d1_silent).
+Proof.
+  split; [|split; [vm_compute; reflexivity|constructor]].
+  intros H. vm_compute in H. decompose [and] H. discriminate.
 Qed.
